@@ -36,11 +36,16 @@ func checkC03(ctx *Ctx) {
 	cases := 0
 	for _, thr := range []uint64{1, 5, 50} {
 		for _, extra := range []int{0, 1, int(thr) + 3} {
-			if ctx.Mine(cases) {
-				ctx.SetCurrent(fmt.Sprintf("C03 auto trigger threshold %d extra %d", thr, extra))
-				c03Auto(ctx, thr, int(thr)+extra)
+			for _, spread := range []bool{false, true} {
+				if spread && thr == 1 {
+					continue
+				}
+				if ctx.Mine(cases) {
+					ctx.SetCurrent(fmt.Sprintf("C03 auto trigger threshold %d extra %d spread %v", thr, extra, spread))
+					c03Auto(ctx, thr, int(thr)+extra, spread)
+				}
+				cases++
 			}
-			cases++
 		}
 	}
 }
@@ -186,7 +191,9 @@ func indexOf(s, sub string) int {
 
 // c03Auto: with threshold thr and a 25 ms interval, after `writes` (>= thr)
 // single-key writes an automatic snapshot must exist within a few ticker fires.
-func c03Auto(ctx *Ctx, thr uint64, writes int) {
+// With spread, the writes are issued in groups smaller than the threshold, each group followed by an
+// observed ticker fire, so the threshold is reached by accumulation over several intervals.
+func c03Auto(ctx *Ctx, thr uint64, writes int, spread bool) {
 	root := mkScratch("c03auto")
 	defer os.RemoveAll(root)
 	dir := filepath.Join(root, "data")
@@ -211,10 +218,32 @@ func c03Auto(ctx *Ctx, thr uint64, writes int) {
 		ctx.Broken("C03 auto: " + err.Error())
 		return
 	}
+	group := writes
+	if spread {
+		group = int(thr) / 3
+		if group < 1 {
+			group = 1
+		}
+		armed.Store(true)
+	}
 	for w := 0; w < writes; w++ {
 		in.Do("SET", fmt.Sprintf("k%d", w), "v")
+		if spread && (w+1)%group == 0 && w+1 < writes {
+			// wait for the next ticker fire before the next group
+			t0 := ticks.Load()
+			dl := time.Now().Add(20 * time.Second)
+			for ticks.Load() == t0 && time.Now().Before(dl) {
+				time.Sleep(2 * time.Millisecond)
+			}
+			if ticks.Load() == t0 {
+				ctx.Inconclusive("auto-trigger: no ticker fire observed within the watchdog")
+				in.Close()
+				return
+			}
+		}
 	}
 	want := CanonDump(in.S.VerifDump(), clk.NowNs())
+	ticks.Store(0)
 	armed.Store(true)
 	deadline := time.Now().Add(20 * time.Second)
 	for ticks.Load() < 4 && time.Now().Before(deadline) {
@@ -222,7 +251,7 @@ func c03Auto(ctx *Ctx, thr uint64, writes int) {
 	}
 	armed.Store(false)
 	ctx.Eval(1)
-	ctx.Class(fmt.Sprintf("auto|threshold=%d|writes=%d", thr, writes))
+	ctx.Class(fmt.Sprintf("auto|threshold=%d|writes=%d|spread=%v", thr, writes, spread))
 	if ticks.Load() < 4 {
 		ctx.Inconclusive("auto-trigger: fewer than 4 ticks observed within the watchdog")
 		in.Close()
@@ -231,16 +260,36 @@ func c03Auto(ctx *Ctx, thr uint64, writes int) {
 	time.Sleep(30 * time.Millisecond) // let a snapshot started by the last observed tick finish
 	ls := lastSave(in)
 	in.Close()
-	c := map[string]interface{}{"threshold": thr, "writes": writes, "ticks_observed": ticks.Load(), "interval_ms": 25}
+	c := map[string]interface{}{"threshold": thr, "writes": writes, "ticks_observed": ticks.Load(), "interval_ms": 25, "writes_spread_over_intervals": spread}
 	if ls == "none" {
 		ctx.Violate(Violation{Kind: "auto_trigger", Lane: "auto", What: fmt.Sprintf("threshold %d, %d writes accumulated, %d ticker fires observed afterwards: no automatic snapshot was taken", thr, writes, ticks.Load()),
-			Case: c, Key: fmt.Sprintf("c03|auto|none|%v", uint64(writes) == thr)})
+			Case: c, Key: fmt.Sprintf("c03|auto|none|%v|%v", uint64(writes) == thr, spread)})
 		return
 	}
 	d, rd, rerr := restoreSnapDump(dir, clk, nil)
 	os.RemoveAll(rd.dir)
-	if rerr != nil || !canonEq(want, d) {
-		ctx.Violate(Violation{Kind: "auto_trigger", Lane: "auto", What: fmt.Sprintf("automatic snapshot does not restore the dataset: %v %s", rerr, model.DiffCanon(want, d)),
+	// A ticker fire in the middle of the writes may already have found the threshold reached: the latest
+	// snapshot then holds a prefix k0..k(j-1) of the writes with j >= threshold, and fewer than
+	// threshold writes came after it (or another snapshot was due).
+	okPrefix := false
+	if rerr == nil {
+		j := countKeys(d)
+		pre := map[int]map[string]string{}
+		for k, v := range want[0] {
+			var idx int
+			fmt.Sscanf(k, "k%d", &idx)
+			if idx < j {
+				if pre[0] == nil {
+					pre[0] = map[string]string{}
+				}
+				pre[0][k] = v
+			}
+		}
+		okPrefix = uint64(j) >= thr && uint64(writes-j) < thr && canonEq(pre, d)
+		c["restored_prefix_length"] = j
+	}
+	if rerr != nil || !okPrefix {
+		ctx.Violate(Violation{Kind: "auto_trigger", Lane: "auto", What: fmt.Sprintf("the latest automatic snapshot does not restore a state of the dataset at which a snapshot was due and after which none was: %v %s", rerr, model.DiffCanon(want, d)),
 			Case: c, Key: "c03|auto|restore"})
 	}
 	ctx.Sample("auto", c)
